@@ -1,6 +1,7 @@
 package sim
 
 import (
+	"os"
 	"errors"
 	"fmt"
 	"math/rand/v2"
@@ -297,7 +298,7 @@ func (s *Sim) restartCycle(cycle int) bool {
 	// have one, waits for the cause on the stop channel and starts the service
 	// again at once ("Start/Stop may be repeated on the same service"): the
 	// service must then really be started, whatever Stop still has to do.
-	supervise := cycle == 1
+	supervise := cycle == 1 && os.Getenv("SIM_NOSUP") == ""
 	type supRec struct {
 		got      bool
 		open     bool
